@@ -1,5 +1,9 @@
 import Driver.Common
+import Driver.CscIO
+import Driver.ConeIO
 import ClarabelModel.Print
+import ClarabelModel.PrintHeader
+import ClarabelModel.PrintWrite
 
 open Clarabel Clarabel.Loop Clarabel.Print Driver
 
@@ -27,6 +31,107 @@ def decStr (s : String) : Option String :=
   if s == "-" then some "" else do
     let bs ← decBytes s.toList
     String.fromUTF8? (ByteArray.mk bs.toArray)
+
+/-! ### formatter, settings and summary on the wire (channels of round 3) -/
+
+def fmtKey (v : Float) : UInt64 := if v.isNaN then 0x7ff8000000000000 else v.toBits
+
+/-- the float formatter as a finite table `(kind, value) ↦ token` supplied by the harness from
+Rust's own `format!`: kinds 0 `{:.1e}`, 1 `{:.3}`, 2 `{:.1}`, 3 `{:?}`, 4 `Duration {:?}` -/
+def mkFmt (tbl : List (Nat × UInt64 × String)) : FloatFmt Float :=
+  let look (k : Nat) (v : Float) : String :=
+    match tbl.find? (fun e => e.1 == k && e.2.1 == fmtKey v) with
+    | some e => e.2.2
+    | none => "<no-token>"
+  { e1 := look 0, f3 := look 1, f1 := look 2, dbg := look 3, duration := look 4,
+    isInfinite := fun v => v.isInf, sizeOf := 8 }
+
+def KV.strs (kv : KV) (k : String) : Option (List String) := do
+  let s ← kv.get? k
+  (splitList s).mapM decStr
+
+def KV.fmtTable (kv : KV) : Option (List (Nat × UInt64 × String)) := do
+  let ks ← kv.nats "fk"
+  let vs ← kv.floats "fv"
+  let ts ← kv.strs "ft"
+  if ks.size != vs.size || ks.size != ts.length then none else
+  pure ((ks.toList.zip (vs.toList.zip ts)).map (fun e => (e.1, fmtKey e.2.1, e.2.2)))
+
+def KV.settings (kv : KV) : Option (Settings Float) := do
+  let verbose ← kv.nat "verbose"
+  let su ← kv.nats "su"
+  let sb ← kv.bools "sb"
+  let sf ← kv.floats "sf"
+  let merge ← (kv.str "merge") >>= decStr
+  if su.size != 3 || sb.size != 6 || sf.size != 14 then none else
+  pure { verbose := verbose != 0, maxIter := su[0]!, timeLimit := sf[0]!, maxStepFraction := sf[1]!,
+         tolFeas := sf[2]!, tolGapAbs := sf[3]!, tolGapRel := sf[4]!,
+         staticRegularizationEnable := sb[0]!, staticRegularizationConstant := sf[5]!,
+         staticRegularizationProportional := sf[6]!,
+         dynamicRegularizationEnable := sb[1]!, dynamicRegularizationEps := sf[7]!,
+         dynamicRegularizationDelta := sf[8]!,
+         iterativeRefinementEnable := sb[2]!, iterativeRefinementReltol := sf[9]!,
+         iterativeRefinementAbstol := sf[10]!, iterativeRefinementMaxIter := su[1]!,
+         iterativeRefinementStopRatio := sf[11]!,
+         equilibrateEnable := sb[3]!, equilibrateMinScaling := sf[12]!, equilibrateMaxScaling := sf[13]!,
+         equilibrateMaxIter := su[2]!,
+         chordalDecompositionCompact := sb[4]!, chordalDecompositionCompleteDual := sb[5]!,
+         chordalDecompositionMergeMethod := merge }
+
+def KV.linInfo (kv : KV) : Option LinearSolverInfo := do
+  let name ← (kv.str "lname") >>= decStr
+  let threads ← kv.nat "threads"
+  let direct ← kv.nat "direct"
+  pure { name, threads, direct := direct != 0 }
+
+/-- `removed=-` / `removed=k`, `chordalc=-` / `chordalc=a,b,c,d` -/
+def KV.summary (kv : KV) : Option Summary := do
+  let n ← kv.nat "n"
+  let m ← kv.nat "m"
+  let nnzP ← kv.nat "nnzP"
+  let nnzA ← kv.nat "nnzA"
+  let tags ← kv.nats "tags"
+  let numel ← kv.nats "numel"
+  let ts ← tags.toList.mapM Tag.ofIndex
+  if ts.length != numel.size then none else
+  let removed ← kv.str "removed"
+  let presolveRemoved ← if removed == "-" then some none else removed.toNat?.map some
+  let cc ← kv.str "chordalc"
+  let chordal ← if cc == "-" then some none else do
+    let v ← kv.nats "chordalc"
+    if v.size != 4 then none else
+    pure (some { initPsd := v[0]!, decomposable := v[1]!, premerge := v[2]!, final := v[3]! : ChordalCounts })
+  pure { presolveRemoved, chordal, n, m, nnzP, nnzA, cones := ts.zip numel.toList }
+
+def fmtIoErr : IoErr → String
+  | .interrupted => "interrupted" | .other => "other" | .writeZero => "writeZero" | .fuel => "fuel"
+
+def fmtOpRes : OpRes → String
+  | .wrote k => s!"w{k}" | .done => "ok" | .failed e => "err:" ++ fmtIoErr e
+
+def encBytes (b : List UInt8) : String := if b.isEmpty then "-" else String.join (b.map hex2)
+
+def parseScript (xs : Array Int) : List WriteRes :=
+  xs.toList.map (fun x => if x == -1 then .interrupted else if x < 0 then .err else .ok x.toNat)
+
+/-- `w:<hex>;a:<hex>;f` -/
+def parseOps (s : String) : Option (List Op) :=
+  if s == "-" then some [] else
+  (s.splitOn ";").mapM (fun tok =>
+    match tok.toList with
+    | ['f'] => some .flush
+    | 'w' :: ':' :: cs => (if cs == ['-'] then some [] else decBytes cs).map .write
+    | 'a' :: ':' :: cs => (if cs == ['-'] then some [] else decBytes cs).map .writeAll
+    | _ => none)
+
+def mkTarget (kind : String) (script : List WriteRes) : Option Target :=
+  match kind with
+  | "buffer" => some (.buffer [])
+  | "stream" => some (.stream { script })
+  | "file" => some (.file { script })
+  | "stdout" => some (.stdout { script })
+  | "sink" => some .sink
+  | _ => none
 end Driver
 
 def handleC20 (ch : String) (kv : KV) : String :=
@@ -72,6 +177,68 @@ def handleC20 (ch : String) (kv : KV) : String :=
         s!"status={r.status.toString} iterations={r.iterations}"
       | .exhausted _ => "oracle-exhausted"
       | .panic s => "panic:" ++ s
+    | _, _ => "bad-request"
+  | "print.configuration" =>
+    match kv.settings, kv.linInfo, kv.fmtTable, kv.str "mode" with
+    | some set, some lin, some tbl, some mode =>
+      let fmt := mkFmt tbl
+      if mode == "summary" then
+        match kv.summary with
+        | some sm => "s=" ++ encStr (printConfiguration fmt lin set sm)
+        | none => "bad-request"
+      else
+        -- the summary is computed by the model of `DefaultProblemData::new` from the user's problem
+        match kv.csc "P", kv.floats "q", kv.csc "A", kv.floats "b", kv.cones "cones9", kv.nat "presolve", kv.float "inf" with
+        | some P, some q, some A, some b, some cs, some pre, some inf =>
+          match ProblemData.new P q A b cs (pre != 0) false inf with
+          | .ok d => "s=" ++ encStr (printConfiguration fmt lin set (Summary.ofData d none))
+          | .error e => fmtErr e
+        | _, _, _, _, _, _, _ => "bad-request"
+    | _, _, _, _ => "bad-request"
+  | "print.status_header" =>
+    match kv.nat "verbose" with
+    | some v => "s=" ++ encStr (printStatusHeader (v != 0))
+    | none => "bad-request"
+  | "print.footer_full" =>
+    match kv.nat "verbose", (kv.str "status") >>= Wire.parseStatus, kv.float "time", kv.fmtTable with
+    | some v, some st, some t, some tbl => "s=" ++ encStr (printFooter (mkFmt tbl) (v != 0) st t)
+    | _, _, _, _ => "bad-request"
+  | "print.whole" =>
+    match kv.settings, kv.linInfo, kv.fmtTable, kv.summary, (kv.str "version") >>= decStr,
+          kv.nats "ri", kv.strs "rc", (kv.str "fstatus") >>= Wire.parseStatus, kv.float "time" with
+    | some set, some lin, some tbl, some sm, some ver, some ri, some rc, some st, some t =>
+      if rc.length != 8 * ri.size then "bad-request" else
+      let rows : List RowText := (List.range ri.size).map (fun k =>
+        { iterations := ri[k]!, cells := ((rc.drop (8 * k)).take 8).toArray })
+      match wholeLog (mkFmt tbl) lin set sm ver ((kv.nat "debug").getD 0 != 0) rows st t with
+      | .ok s => "s=" ++ encStr s
+      | .error e => fmtErr e
+    | _, _, _, _, _, _, _, _, _ => "bad-request"
+  | "print.write_impl" =>
+    match kv.str "target", kv.ints "script", (kv.str "ops") >>= parseOps with
+    | some kind, some script, some ops =>
+      match mkTarget kind (parseScript script) with
+      | none => "bad-request"
+      | some t =>
+        let (rs, t') := t.run ops
+        let base := s!"res={",".intercalate (rs.map fmtOpRes)} got={encBytes t'.delivered}"
+        if kind == "stream" then
+          base ++ s!" calls={fmtNats t'.calls.toArray} flushes={t'.flushes} left={t'.pending.length}"
+        else base
+    | _, _, _ => "bad-request"
+  | "print.target_kind" =>
+    match kv.str "target", (kv.str "pre") >>= (fun h => if h == "-" then some [] else decBytes h.toList) with
+    | some kind, some pre =>
+      match mkTarget kind [] with
+      | none => "bad-request"
+      | some t =>
+        let t := (t.writeAll pre).2
+        let c := t.clone
+        -- the clone receives one more byte; a copied buffer must not alias the original
+        let c' := (c.writeAll [33]).2
+        let cb := match c' with | .buffer b => encBytes b | _ => "-"
+        let ob := match t with | .buffer b => encBytes b | _ => "-"
+        s!"kind={t.debugName} clone={c.debugName} clonebuf={cb} origbuf={ob}"
     | _, _ => "bad-request"
   | _ => "unknown-channel"
 
